@@ -232,6 +232,88 @@ func TestFunctionInspect(t *testing.T) {
 	})
 }
 
+// Single-statement lambda bodies whose printed form starts with each kind of operand, reached through every chain
+// (up to 3 links) of index, field, call and left-operand positions: whether such a body can follow => without braces
+// is decided by what its text starts with ({ would open a block) and how loosely it binds.
+func TestLambdaBodies(t *testing.T) {
+	bases := []func() *gen.Node{
+		func() *gen.Node { return gen.Map(gen.Str("inc"), gen.Lambda([]string{"n"}, false, gen.Infix("+", gen.Id("n"), gen.IntLit("1")))) },
+		func() *gen.Node { return gen.Map() },
+		func() *gen.Node { return gen.Map(gen.Str("a"), gen.IntLit("1"), gen.Str("b"), gen.IntLit("2")) },
+		func() *gen.Node { return gen.Array(gen.IntLit("1"), gen.Id("a")) },
+		func() *gen.Node { return gen.Id("a") },
+		func() *gen.Node { return gen.IntLit("1") },
+		func() *gen.Node { return gen.Str("s") },
+		func() *gen.Node { return gen.Lambda([]string{"x"}, false, gen.Id("x")) },
+		func() *gen.Node { return gen.IfElse(gen.Id("a"), []*gen.Node{gen.IntLit("1")}, []*gen.Node{gen.IntLit("2")}) },
+		func() *gen.Node { return gen.Prefix("-", gen.Id("a")) },
+		func() *gen.Node { return gen.Prefix("!", gen.Id("a")) },
+		func() *gen.Node { return gen.Func("", []string{"y"}, false, gen.Id("y")) },
+	}
+	links := []func(n *gen.Node) *gen.Node{
+		func(n *gen.Node) *gen.Node { return gen.Index(n, gen.Id("k")) },
+		func(n *gen.Node) *gen.Node { return gen.Dot(n, "k") },
+		func(n *gen.Node) *gen.Node { return gen.Call(n, gen.Id("v")) },
+		func(n *gen.Node) *gen.Node { return gen.Infix("+", n, gen.Id("b")) },
+		func(n *gen.Node) *gen.Node { return gen.Infix("==", n, gen.Id("b")) },
+		func(n *gen.Node) *gen.Node { return gen.Infix("&&", n, gen.Id("b")) },
+		func(n *gen.Node) *gen.Node { return gen.Slice(n, gen.IntLit("1"), nil) },
+	}
+	var chains [][]int
+	var rec func(prefix []int, depth int)
+	rec = func(prefix []int, depth int) {
+		chains = append(chains, append([]int{}, prefix...))
+		if depth == 0 {
+			return
+		}
+		for i := range links {
+			rec(append(prefix, i), depth-1)
+		}
+	}
+	rec(nil, pbt.N(2, 3))
+	idx := 0
+	var total, nontriv int64
+	for bi := range bases {
+		for _, ch := range chains {
+			idx++
+			if !pbt.Mine(idx) {
+				continue
+			}
+			for form := 0; form < 3; form++ {
+				body := bases[bi]()
+				for _, l := range ch {
+					body = links[l](body)
+				}
+				var fn *gen.Node
+				switch form {
+				case 0:
+					fn = gen.Lambda([]string{"k", "v"}, false, body)
+				case 1:
+					fn = gen.LambdaBlock([]string{"k", "v"}, false, body)
+				default:
+					fn = gen.Func("", []string{"k", "v"}, false, body)
+				}
+				if ex := excludedTree([]*gen.Node{fn}); ex != "" {
+					pbt.Excluded(ex)
+					continue
+				}
+				norm := fn.Clone()
+				norm.K = gen.KLambda
+				norm.Block = true
+				c := InspectCase{Text: gen.Print([]*gen.Node{gen.Assign("zz", fn)}, gen.PrintOptions{}), Expect: gen.Expect([]*gen.Node{norm}, true)}
+				if err := checkInspect(c); err != nil {
+					pbt.Fail(t, "inspect", c, "%v", err)
+				}
+				total++
+				if len(ch) > 0 {
+					nontriv++
+				}
+			}
+		}
+	}
+	pbt.AddExact(total, nontriv, "inspect:lambda-body-chains")
+}
+
 // ---- mutations of shipped examples and native fuzzing ---------------------------------------------------------
 
 var corpus = func() []string {
